@@ -423,6 +423,10 @@ pub fn run() {
   for (label, t) in ip.iter().step_by(ip.len() / 4 + 1) {
     run.sample(json!({"level":"iteration-product","label":label,"text":text(t)}));
   }
+  // lists in lists of lists
+  let ll = lists_in_lists();
+  ll.par_iter().for_each(|(label, t)| process_term(&run, &chk, &stats, label, t, &vals));
+  run.set("list_in_lists_terms", json!(ll.len()));
   // level 2, streamed by chunk
   let inner = level1(&leaves_reduced(thorough));
   let chunks = level2_chunks();
